@@ -765,13 +765,17 @@ auto vyukov_hash_map<Key, Value, Policies...>::find(const key_type& key) -> iter
     }
   }
 
-  auto extension = bucket.head.load(std::memory_order_relaxed);
+  auto extension_prev = &bucket.head;
+  auto extension = extension_prev->load(std::memory_order_relaxed);
   while (extension) {
     if (traits::template compare_key<false>(extension->key, extension->value, key, h, acc)) {
       result.extension = extension;
+      // erase(iterator&) unlinks the extension item via prev
+      result.prev = extension_prev;
       return result;
     }
-    extension = extension->next.load(std::memory_order_relaxed);
+    extension_prev = &extension->next;
+    extension = extension_prev->load(std::memory_order_relaxed);
   }
 
   return end();
